@@ -6,7 +6,7 @@ equals the hand-written model: src/timezone/rule.rs — day notations, the consi
 The source keeps `MonthWeekDay` and the check-info records as structures; the model keeps the three
 fields of a month-week-day inside `RuleDay.mwd` and has its own records: `jInfo` / `mInfo` convert.
 -/
-import TzVerif.Generated.Src
+import TzVerif.SrcBase
 import TzVerif.Model.Rule
 import TzVerif.Proofs.SrcEqCal
 import TzVerif.Proofs.SrcEqRuleSearch
